@@ -389,6 +389,7 @@ def coq_obligations(ctx, props_file, extra_targets=(), allowed_axioms=()):
             ctx.obligation("theorem:" + name, "theorem", True, "closed")
         else:
             axs = re.findall(r"^([A-Za-z_][\w.']*)\s*:", rest, re.M)
+            axs = [a for a in axs if a not in ("Axioms", "Section", "Variables")]
             notok = [a for a in axs if not any(a == al or a.endswith("." + al) for al in allowed_axioms)]
             axioms_seen.update(axs)
             ctx.obligation("theorem:" + name, "theorem", not notok,
